@@ -407,29 +407,42 @@ pub struct SpillStats {
     pub writes: std::cell::Cell<u64>,
     pub reads: std::cell::Cell<u64>,
     pub bytes_written: std::cell::Cell<u64>,
+    /// Writes/reads by spills created second within a braid call (the convergence map's).
+    pub conv_writes: std::cell::Cell<u64>,
+    pub conv_reads: std::cell::Cell<u64>,
+    /// Writes/reads by spills created first within a braid call (the braid result's).
+    pub braid_writes: std::cell::Cell<u64>,
+    pub braid_reads: std::cell::Cell<u64>,
 }
 
 /// In-memory spill that counts what the braid / convergence map actually spilled.
 pub struct CountingSpill {
     inner: MemSpill,
     stats: Rc<SpillStats>,
+    /// `braid()` creates exactly two spills per call: the result buffer first, the convergence map second.
+    is_conv: bool,
 }
 
 impl CountingSpill {
     pub fn new(stats: Rc<SpillStats>) -> Result<Self, StorageError> {
-        stats.created.set(stats.created.get() + 1);
-        Ok(Self { inner: MemSpill::new()?, stats })
+        let n = stats.created.get();
+        stats.created.set(n + 1);
+        Ok(Self { inner: MemSpill::new()?, stats, is_conv: n % 2 == 1 })
     }
 }
 
 impl Spill for CountingSpill {
     fn write_at(&mut self, offset: usize, data: &[u8]) -> Result<(), StorageError> {
         self.stats.writes.set(self.stats.writes.get() + 1);
+        let c = if self.is_conv { &self.stats.conv_writes } else { &self.stats.braid_writes };
+        c.set(c.get() + 1);
         self.stats.bytes_written.set(self.stats.bytes_written.get() + data.len() as u64);
         self.inner.write_at(offset, data)
     }
     fn read_at(&mut self, offset: usize, data: &mut [u8]) -> Result<(), StorageError> {
         self.stats.reads.set(self.stats.reads.get() + 1);
+        let c = if self.is_conv { &self.stats.conv_reads } else { &self.stats.braid_reads };
+        c.set(c.get() + 1);
         self.inner.read_at(offset, data)
     }
 }
